@@ -18,6 +18,10 @@ var fixtureA = []string{
 	"group grpA c5;a1;u=~:p.e0:observe,usrAna:p.a:admin,usrAlice:p.l:op,usrBob:b.b:present,usrKim:k.k:op,usrWild:w:message,usrEmp:e:op;w=p.w:message;k=K1,E2",
 	"group grpB c7;a0;u=usrBea:p.h:admin,usrAlice:p.m:op;w=-;k=K3",
 	"group grpA/sub2 c3;a0;u=usrSam:p.s:admin;w=-;k=-",
+	// a definition in the LEGACY format next to a modern users map: usrDup is listed under op and presenter (the
+	// presenter entry is dropped), usrMod is in the users map and under op (the op entry is dropped), two entries
+	// without username (the second is dropped), an entry without password (any password), allow-subgroups
+	"group grpL c4;a0;u=usrMod:p.lm:admin;w=-;k=K5;s1;o=usrOp:p.o,usrDup:b.d1,usrMod:p.lx;p=usrDup:p.d2,~:p.w1,usrPre:-;t=~:k.w2,usrOth:k.ot",
 	"token tokA grpA 0 tadm admin ok",
 	"token tokB grpB 0 tadm admin ok",
 	"token tokAop grpA 0 tusr op ok",
@@ -65,6 +69,12 @@ var credsA = []string{
 	"jwt:K3:grpA:admin:-", // signed with grpB's key, for grpA
 	"jwt:K1:grpA:op:-",    // no admin permission
 	"jwt:K9:grpA:admin:-", // unknown key
+	"basic:usrOp:o",       // user of grpL defined by a legacy op entry
+	"basic:usrDup:d1",     // legacy user, the entry that counts (bcrypt)
+	"basic:usrDup:d2",     // ... the password of the duplicate entry that is dropped
+	"basic:usrMod:lm",     // administrator of grpL (users map; its legacy duplicate has password lx)
+	"basic:usrMod:lx",     // ... the password of the dropped legacy duplicate
+	"basic:zed:w1",        // matches grpL's legacy wildcard entry (permission present)
 }
 
 const api = "/galene-api/v0"
@@ -92,6 +102,10 @@ var pathsA = []string{
 	api + "/.groups/grpA/sub2/.users/usrSam",
 	api + "/.groups/grpZ/.users/usrAlice", api + "/.groups/grpZ/.tokens/",
 	api + "/.groups/.users/usrAlice", api + "/.groups/.tokens/", api + "/.groups/.keys",
+	api + "/.groups/grpL", api + "/.groups/grpL/.users/", api + "/.groups/grpL/.users/usrDup", api + "/.groups/grpL/.users/usrMod",
+	api + "/.groups/grpL/.users/usrDup/.password", api + "/.groups/grpL/.users/usrMod/.password", api + "/.groups/grpL/.users/usrPre/.password",
+	api + "/.groups/grpL/.wildcard-user", api + "/.groups/grpL/.wildcard-user/.password", api + "/.groups/grpL/.keys",
+	api + "/.groups/grpL/sub", api + "/.groups/grpL/sub/.users/usrOp",
 }
 
 var methods = []string{"GET", "HEAD", "PUT", "POST", "DELETE", "OPTIONS", "PATCH"}
@@ -250,7 +264,38 @@ func genRandom(t *common.Trace, e common.Engine, r *common.Rng, thorough bool) {
 			if r.Intn(2) == 0 {
 				k = common.Pick(r, "K1", "K1,E2", "D3", "E2,K4,K1")
 			}
-			do("group %s c%d;a%d;u=%s;w=%s;k=%s", g, r.Range(0, 30), r.Intn(2), ustr, w, k)
+			legacy := ""
+			if r.Intn(3) == 0 {
+				// the legacy file format: names from the same pool (so duplicates of users-map entries and across
+				// arrays are common), entries without username, with plain/hashed/no password
+				t.Count("rand:legacy-fixture")
+				if r.Intn(4) == 0 {
+					legacy += ";s1"
+				}
+				for _, sec := range []string{"o=", "p=", "t="} {
+					if r.Intn(3) == 0 {
+						continue
+					}
+					var es []string
+					for n := r.Range(1, 4); n > 0; n-- {
+						name := common.Pick(r, userPool...)
+						if r.Intn(4) == 0 {
+							name = "~"
+						}
+						pwid++
+						pw := randPw(r, fmt.Sprintf("u%d", pwid))
+						if pw == "x" || pw == "e" {
+							pw = "-"
+						}
+						if name != "~" {
+							known = append(known, fmt.Sprintf("%s:u%d", name, pwid))
+						}
+						es = append(es, name+":"+pw)
+					}
+					legacy += ";" + sec + strings.Join(es, ",")
+				}
+			}
+			do("group %s c%d;a%d;u=%s;w=%s;k=%s%s", g, r.Range(0, 30), r.Intn(2), ustr, w, k, legacy)
 			existing = append(existing, g)
 		}
 		ntok := r.Intn(4)
@@ -489,6 +534,102 @@ func (e *eng) tokenExists(name string) (string, bool) {
 }
 
 // ---------------------------------------------------------------------------
+// Part B2: definitions in the legacy file format (obsolete op/presenter/other arrays that
+// group.upgradeDescription folds into users at load time), the awkward shapes systematically:
+// every read, then every kind of update, each followed by the reads again ("what does a later GET
+// return after the file was rewritten?").
+
+var legacyFixtures = []string{
+	// pure legacy file: duplicate across op/presenter, two entries without username, plain/bcrypt/pbkdf2/no password
+	"c6;a0;u=-;w=-;k=-;o=usrOp:p.o1,usrDup:b.d1;p=usrDup:p.d2,~:p.w1,usrPre:-;t=~:k.w2,usrOth:k.ot",
+	// legacy arrays next to a users map and a wildcard-user field: every legacy duplicate loses
+	"c6;a1;u=usrMod:p.m:admin,usrDup:k.dm:present;w=p.wm:message;k=K1;o=usrMod:p.mx,usrOp:b.o1;p=usrDup:p.d2,~:p.w1;t=~:p.w2",
+	// the same name twice in one array, and in all three; allow-subgroups
+	"c2;a0;u=-;w=-;k=E2;s1;o=usrDup:p.d1,usrDup:p.d2;p=usrDup:b.d3;t=usrDup:k.d4,usrOth:-",
+	// only `other`; a user with the empty name in the users map next to a legacy entry without username
+	"c0;a0;u=~:p.e0:op;w=-;k=-;t=~:p.w1,usrOth:p.ot",
+	// only entries without username
+	"c9;a0;u=usrMod:p.m:admin;w=-;k=D3;o=~:-;p=~:p.w1",
+}
+
+func genLegacy(t *common.Trace, e common.Engine, r *common.Rng, thorough bool) {
+	reads := func(do func(string, ...any) string) {
+		do("req GET %s/.groups/grpL basic:root:r - - - -", api)
+		do("req GET %s/.groups/grpL/.users/ basic:root:r - - - -", api)
+		for _, u := range []string{"usrOp", "usrDup", "usrMod", "usrPre", "usrOth"} {
+			do("req GET %s/.groups/grpL/.users/%s basic:root:r - - - -", api, u)
+		}
+		do("req GET %s/.groups/grpL/.empty-user basic:root:r - - - -", api)
+		do("req GET %s/.groups/grpL/.wildcard-user basic:root:r - - - -", api)
+	}
+	updates := []string{
+		"PUT %s/.groups/grpL basic:root:r json - - desc:11:0",
+		"PUT %s/.groups/grpL/.users/usrDup basic:root:r json - - user:caption",
+		"PUT %s/.groups/grpL/.users/usrNew basic:root:r json - - user:present",
+		"DELETE %s/.groups/grpL/.users/usrDup basic:root:r - - - -",
+		"DELETE %s/.groups/grpL/.wildcard-user basic:root:r - - - -",
+		"PUT %s/.groups/grpL/.wildcard-user basic:root:r json - - user:observe",
+		"PUT %s/.groups/grpL/.users/usrDup/.password basic:root:r json - - pw:p.n1",
+		"PUT %s/.groups/grpL/.users/usrDup/.password basic:usrDup:d1 json - - pw:k.n2",
+		"PUT %s/.groups/grpL/.users/usrDup/.password basic:usrDup:d2 json - - pw:p.n3",
+		"POST %s/.groups/grpL/.users/usrOth/.password basic:root:r text - - text:n4",
+		"DELETE %s/.groups/grpL/.wildcard-user/.password basic:root:r - - - -",
+		"PUT %s/.groups/grpL/.keys basic:root:r jwk - - keys:K7",
+		"DELETE %s/.groups/grpL/.keys basic:root:r - - - -",
+		"DELETE %s/.groups/grpL basic:root:r - - - -",
+	}
+	for fi, fx := range legacyFixtures {
+		for ui, u := range updates {
+			t.Case(fmt.Sprintf("legacy-%d-%d", fi, ui))
+			e.Reset()
+			do := func(f string, args ...any) string { return common.Do(t, e, fmt.Sprintf(f, args...)) }
+			do("conf 1 root:p.r:admin")
+			do("group grpL %s", fx)
+			reads(do)
+			res := do("req "+u, api)
+			t.Count("legacy:update:" + strings.Fields(res)[0])
+			reads(do)
+			// and a second update of another kind on the rewritten file
+			do("req "+updates[(ui+5)%len(updates)], api)
+			reads(do)
+		}
+		// the group-level second phases on a legacy file
+		t.Case(fmt.Sprintf("legacy-%d-phase2", fi))
+		e.Reset()
+		do := func(f string, args ...any) string { return common.Do(t, e, fmt.Sprintf(f, args...)) }
+		do("conf 1 root:p.r:admin")
+		do("group grpL %s", fx)
+		do("utag s1 grpL usrDup")
+		do("gtag s2 grpL")
+		do("uupd s1 grpL usrDup message")
+		do("gupd s2 grpL 13 0")
+		do("gtag s2 grpL")
+		do("setkeys grpL K7")
+		do("gupd s2 grpL 14 0")
+		reads(do)
+	}
+	// request bodies that carry legacy arrays themselves (each in its own short case)
+	for i, b := range []string{"descl:7:o:usrX:p.xx", "descl:7:p:~:-", "descl:7:t:usrDup:p.yy", "descl:3:o:usrMod:p.zz"} {
+		for fi, fx := range []string{legacyFixtures[0], legacyFixtures[1], "c5;a0;u=usrMod:p.m:admin;w=-;k=-"} {
+			t.Case(fmt.Sprintf("legacybody-%d-%d", i, fi))
+			e.Reset()
+			do := func(f string, args ...any) string { return common.Do(t, e, fmt.Sprintf(f, args...)) }
+			do("conf 1 root:p.r:admin")
+			do("group grpL %s", fx)
+			res := do("req PUT %s/.groups/grpL basic:usrMod:m json - - %s", api, b)
+			t.Count("legacy:body:" + strings.Fields(res)[0])
+			reads(do)
+		}
+		t.Case(fmt.Sprintf("legacybody-%d-new", i))
+		e.Reset()
+		do := func(f string, args ...any) string { return common.Do(t, e, fmt.Sprintf(f, args...)) }
+		do("conf 1 root:p.r:admin")
+		do("req PUT %s/.groups/grpN basic:root:r json - * %s", api, b)
+		do("req GET %s/.groups/grpN/.users/ basic:root:r - - - -", api)
+	}
+}
+
+// ---------------------------------------------------------------------------
 // Part C: every interleaving of two or three conditional writers, the two
 // phases driven separately on the real group package.
 
@@ -628,13 +769,16 @@ func genCrash(t *common.Trace, e common.Engine) {
 func gen(t *common.Trace, e common.Engine, r *common.Rng, thorough bool) {
 	// common.Rng streams of neighbouring seeds are shifted copies of each other; re-seed from an output
 	r = common.NewRng(r.U64())
-	parts := os.Getenv("VERIF_API_PARTS") // debugging aid: comma-separated subset of table,rand,il,crash,race
+	parts := os.Getenv("VERIF_API_PARTS") // debugging aid: comma-separated subset of table,rand,legacy,il,crash,race
 	want := func(p string) bool { return parts == "" || strings.Contains(","+parts+",", ","+p+",") }
 	if want("table") {
 		genTable(t, e, r, thorough)
 	}
 	if want("rand") {
 		genRandom(t, e, r, thorough)
+	}
+	if want("legacy") {
+		genLegacy(t, e, r, thorough)
 	}
 	if want("il") {
 		genInterleavings(t, e, r, thorough)
